@@ -13,7 +13,7 @@ Line protocol for the outbound write queue models (C16).
   async init <size> <onErrBlocks>   → ok
   async push <id> <fails>           → push <0|1> <ast>
   async start | exec | closebegin | closeend → ok <ast>
-     <ast> = cons <ns|pull|hold:id|err:id|exit> run <0|1> ret <0|1> exec <n> <last id|0> err <n> acc <n> ring <st>
+     <ast> (ring hash with every callback counted as 1) = cons <ns|pull|hold:id|err:id|exit> run <0|1> ret <0|1> exec <n> <last id|0> err <n> acc <n> ring <st>
 -/
 namespace Rtsp.Drv.Ring
 open Rtsp.Ring
@@ -75,7 +75,7 @@ namespace Rtsp.Drv.Async
 open Rtsp.Async Rtsp.Ring
 
 def idRing (r : Ring Cb) : Ring Nat :=
-  { size := r.size, buffer := r.buffer.map (·.map (·.id)), readIndex := r.readIndex,
+  { size := r.size, buffer := r.buffer.map (·.map (fun _ => 1)), readIndex := r.readIndex,
     writeIndex := r.writeIndex, closed := r.closed }
 
 def pcStr : CPc → String
@@ -88,6 +88,12 @@ def pcStr : CPc → String
 def astStr (p : Proc) : String :=
   let last := match p.executed.getLast? with | some c => c.id | none => 0
   s!"cons {pcStr p.cons} run {b2s p.running} ret {b2s (p.closer == .returned)} exec {p.executed.length} {last} err {p.errors.length} acc {p.accepted.length} ring {Ring.stStr (idRing p.ring)}"
+
+/-- after every harness operation the real consumer has run until it blocks, and a `Close` that is
+waiting on `done` returns as soon as it can -/
+def post (p : Proc) : Proc :=
+  let p := settle p
+  if p.closer == .ringClosed then closeStep p else p
 
 def mk : IO Handler := do
   let st ← IO.mkRef (Async.init 1 false)
@@ -103,16 +109,16 @@ def mk : IO Handler := do
       match id.toNat? with
       | some x =>
         let (p, ok) := Async.push (← st.get) { id := x, fails := f == "1" }
-        let p := settle p
+        let p := post p
         st.set p
         return s!"push {b2s ok} {astStr p}"
       | none => return "bad-op"
     | ["start"] =>
-      let p := settle (start (← st.get)); st.set p; return s!"ok {astStr p}"
+      let p := post (start (← st.get)); st.set p; return s!"ok {astStr p}"
     | ["exec"] =>
-      let p := settle (cexec (← st.get)); st.set p; return s!"ok {astStr p}"
+      let p := post (cexec (← st.get)); st.set p; return s!"ok {astStr p}"
     | ["closebegin"] =>
-      let p := closeStep (settle (closeStep (closeStep (← st.get))))
+      let p := post (closeStep (closeStep (← st.get)))
       st.set p; return s!"ok {astStr p}"
     | ["closeend"] =>
       let p := joinFuel 4 (← st.get)
